@@ -57,6 +57,7 @@ type Run struct {
 	Coverage                  map[string]interface{}
 	Explanation               string
 
+	byteTheory     bool // load the byte-level meaning of the wire tokens (iohelp proofs)
 	scratch        string
 	known          []KnownFinding
 	onMissingInput func(o *vc.Obligation) bool // may extend the harness findings; true = look again
@@ -143,9 +144,9 @@ var registry = map[string]func(*Run) error{}
 
 func (r *Run) timeout() int {
 	if r.Tier == "thorough" {
-		return 30
+		return 60
 	}
-	return 8
+	return 25
 }
 
 // loadEngine loads packages of the repository (tag verif) with all contract files.
@@ -162,6 +163,13 @@ func (r *Run) loadEngine(dir string, patterns ...string) (*vc.Engine, error) {
 		return nil, err
 	}
 	e.RawSMT = append(e.RawSMT, string(th))
+	if r.byteTheory {
+		tb, err := os.ReadFile(filepath.Join(r.Verif, "contracts", "theory_bytes.smt2"))
+		if err != nil {
+			return nil, err
+		}
+		e.RawSMT = append(e.RawSMT, string(tb))
+	}
 	if err := e.AddContractFile(filepath.Join(r.Verif, "contracts", "stdlib.contracts"), ""); err != nil {
 		return nil, err
 	}
@@ -220,7 +228,7 @@ func (r *Run) verify(e *vc.Engine, pkgPaths []string, sel Selection, withLemmas 
 	for _, fc := range e.AssumedContracts() {
 		r.Assumptions["assumed contract: "+fc] = true
 	}
-	e.Discharge(all, runtime.NumCPU()/2)
+	e.Discharge(all, runtime.NumCPU()*3/4)
 	r.record(e, all)
 	return nil
 }
